@@ -52,7 +52,7 @@ def generate(streams, tier):
                          max_parents=3)
     else:
         world = W.gen_mn(streams, max_n=7 if big else 6, min_n=1 if kind != "fg" else 2, max_joint=16384 if big else 2048, connected=True,
-                         dup_rate=0.0)
+                         dup_rate=0.0, scale_rate=0.3, hub_rate=0.25)
     ri = streams.s("insertion")
     cfg = {"kind": kind}
     if kind == "bn":
